@@ -857,6 +857,100 @@ Proof.
   - apply canon_set_eq. intros c. rewrite M. cbn. tauto.
 Qed.
 
+(* ------------------------------------------------------------------ fun_add (MapBuilder.Set on a function) *)
+Lemma fun_add_In l k v p : In p (fun_add l k v) -> In p l \/ p = (k, v).
+Proof.
+  induction l as [|[k' v'] l IH]; cbn.
+  - intros [<-|[]]. auto.
+  - destruct (Equal k' k).
+    + intros [<-|H]; auto.
+    + intros [<-|H]; auto. destruct (IH H); auto.
+Qed.
+
+Lemma fun_add_keys l k v :
+  (forall y, In y (map fst l) -> rep_ok y) -> rep_ok k ->
+  map canon (map fst (fun_add l k v)) =
+  if existsb (fun y => Equal y k) (map fst l) then map canon (map fst l) else map canon (map fst l) ++ [canon k].
+Proof.
+  intros Rl Rk. induction l as [|[k' v'] l IH]; cbn; [reflexivity|].
+  destruct (Equal k' k) eqn:E; cbn.
+  - f_equal. symmetry. apply Equal_spec_lemma; auto. apply Rl. cbn; auto.
+  - rewrite IH by (intros; apply Rl; cbn; auto).
+    destruct (existsb (fun y => Equal y k) (map fst l)); reflexivity.
+Qed.
+
+Definition ckvp (p : value * value) : value * value := (canon (fst p), canon (snd p)).
+
+Lemma fun_add_pairs l k v :
+  (forall y, In y (map fst l) -> rep_ok y) -> rep_ok k -> NoDup (map canon (map fst l)) ->
+  forall p, In p (map ckvp (fun_add l k v)) <->
+            (In p (map ckvp l) /\ fst p <> canon k) \/ p = (canon k, canon v).
+Proof.
+  intros Rl Rk Nd. induction l as [|[k' v'] l IH]; intros p; cbn.
+  - split; [intros [<-|[]]; auto|intros [[[] _]| ->]; auto].
+  - inversion Nd as [|? ? Hn Nd']; subst. cbn in Rl.
+    assert (Rk' : rep_ok k') by (apply Rl; auto).
+    destruct (Equal k' k) eqn:E; cbn.
+    + apply Equal_spec_lemma in E; auto. unfold ckvp at 1. cbn [fst snd]. split.
+      * intros [<-|Hin]; auto. left. split; auto. intros Hc. apply Hn.
+        apply in_map_iff in Hin as ([a b] & <- & Hab). cbn in Hc. rewrite E, <- Hc.
+        apply in_map. apply in_map_iff. exists (a, b). auto.
+      * intros [[[<-|Hin] Hne]| ->]; auto. cbn in Hne. congruence.
+    + assert (Hne : canon k' <> canon k).
+      { intros Hc. apply Equal_spec_lemma in Hc; auto. congruence. }
+      rewrite IH by auto. unfold ckvp at 1 3. cbn [fst snd]. split.
+      * intros [<-|[[Hin Hp]| ->]]; auto.
+      * intros [[[<-|Hin] Hp]| ->]; auto.
+Qed.
+
+Lemma fun_add_rep l k v :
+  (forall p, In p l -> rep_ok (fst p) /\ rep_ok (snd p)) -> rep_ok k -> rep_ok v -> NoDup (map canon (map fst l)) ->
+  (forall p, In p (fun_add l k v) -> rep_ok (fst p) /\ rep_ok (snd p)) /\
+  NoDup (map canon (map fst (fun_add l k v))).
+Proof.
+  intros Rl Rk Rv Nd.
+  assert (Rkeys : forall y, In y (map fst l) -> rep_ok y).
+  { intros y Hy. apply in_map_iff in Hy as (p & <- & Hp). apply Rl; auto. }
+  split.
+  - intros p Hp. apply fun_add_In in Hp as [Hp| ->]; auto.
+  - rewrite fun_add_keys by auto. destruct (existsb (fun y => Equal y k) (map fst l)) eqn:E; auto.
+    apply NoDup_app_single; auto. intros Hin. apply set_has_In in Hin; auto. congruence.
+Qed.
+
+(* folding a list of bindings with pairwise different keys into an accumulator: the list wins *)
+Lemma fold_fun_add l : forall acc,
+  (forall p, In p l -> rep_ok (fst p) /\ rep_ok (snd p)) ->
+  (forall p, In p acc -> rep_ok (fst p) /\ rep_ok (snd p)) ->
+  NoDup (map canon (map fst l)) -> NoDup (map canon (map fst acc)) ->
+  let res := fold_left (fun a p => fun_add a (fst p) (snd p)) l acc in
+  (forall p, In p res -> In p acc \/ In p l) /\
+  NoDup (map canon (map fst res)) /\
+  (forall p, In p (map ckvp res) <->
+             In p (map ckvp l) \/ (In p (map ckvp acc) /\ ~ In (fst p) (map canon (map fst l)))).
+Proof.
+  induction l as [|[k v] l IH]; intros acc Rl Ra Nl Na; cbn [fold_left].
+  - cbn. repeat split; auto. + intros [[]|[H _]]; auto. 
+  - inversion Nl as [|? ? Hn Nl']; subst. cbn [fst snd].
+    destruct (Rl (k, v) (or_introl eq_refl)) as [Rk Rv]. cbn in Rk, Rv.
+    assert (Rkeys : forall y, In y (map fst acc) -> rep_ok y).
+    { intros y Hy. apply in_map_iff in Hy as (p & <- & Hp). apply Ra; auto. }
+    destruct (fun_add_rep acc k v Ra Rk Rv Na) as [Ra' Na'].
+    pose proof (fun_add_pairs acc k v Rkeys Rk Na) as Mp.
+    destruct (IH (fun_add acc k v) (fun p Hp => Rl p (or_intror Hp)) Ra' Nl' Na') as (I1 & I2 & I3).
+    split; [|split; [exact I2|]].
+    + intros p Hp. apply I1 in Hp as [Hp|Hp]; [|right; right; auto].
+      apply fun_add_In in Hp as [Hp| ->]; auto. right. left. reflexivity.
+    + intros p. rewrite I3, Mp. cbn [map In fst snd]. unfold ckvp at 3. cbn [fst snd]. split.
+      * intros [Hin|[[[Hin Hne]| ->] Hnl]]; auto.
+        right. split; auto. intros [Hc|Hc]; auto.
+      * intros [[<-|Hin]|[Hin Hnl]].
+        -- right. split; [right; reflexivity|exact Hn].
+        -- left. exact Hin.
+        -- right. split; [left; split; [exact Hin|]|].
+           ++ intros Hc. apply Hnl. left. symmetry. exact Hc.
+           ++ intros Hc. apply Hnl. right. exact Hc.
+Qed.
+
 (* ------------------------------------------------------------------ gob round trip *)
 Section cval_ind_clock.
   Context (P : cval -> Prop).
